@@ -250,7 +250,7 @@ def finite_difference(blk: Module, fromsig: Union[Signal, Iterable[Signal]] = No
                     if dx_an[Iout][Iin] is not None:
                         try:
                             dgdx_an = np.imag(dx_an[Iout][Iin][it.multi_index])
-                        except IndexError:
+                        except (IndexError, TypeError):
                             dgdx_an = np.imag(dx_an[Iout][Iin])
                     else:
                         dgdx_an = 0.0
